@@ -106,7 +106,12 @@ func ErrorCorrection_EncodeECC200(codewords []byte, symbolInfo *SymbolInfo) ([]b
 			}
 			ecc, _ := createECCBlock(temp, errorSizes[block])
 			pos := 0
-			for e := block; e < errorSizes[block]*blockCount; e += blockCount {
+			// The interleaving runs on from the data codewords into the error codewords:
+			// codeword n of the symbol belongs to block n % blockCount. The data capacity is a
+			// multiple of blockCount for every symbol except 144x144 (1558 = 155*10 + 8), where the
+			// first error codeword therefore belongs to block 9, as the decoder expects.
+			first := (block + blockCount - symbolInfo.GetDataCapacity()%blockCount) % blockCount
+			for e := first; e < errorSizes[block]*blockCount; e += blockCount {
 				sb[symbolInfo.GetDataCapacity()+e] = ecc[pos]
 				pos++
 			}
